@@ -42,6 +42,40 @@ CLAIMED = {
     "C14": (E1, "fully exhaustive enumeration of constellations, labels, point pairs and of all integers below 2^16/2^20 for the Gray utilities",
             "All points/labels/pairs of every published constellation; mapper vs table; unit energy; Gray neighbours; Gray utilities for every integer below the bound "
             "and structured integers to 2^60.", "none beyond float tolerances 1e-5", "DESIGN.md §5 C14"),
+    "C07": ("kmc-E4-rngseam+kmc-E1-space", "environment-answer enumeration through an RNG seam: complete quantile grids (deterministic quadrature of the noise power) and enumerated answer alphabets (exact scale law)",
+            "Every additive-noise stage x parameterisation x real/complex x signal powers x SNRs x shapes is run with every random request answered by the harness; "
+            "measured noise power must equal the configured value / faded-signal power over SNR within 0.5 %, the noise must be one scalar times the draws with the "
+            "sqrt-power scaling law, supplied noise must be added bit-exactly, and the dB/linear/noise-power conversions and both SNR measuring tools must agree on a dense grid.",
+            "torch's generators are i.i.d. with the documented law (only the first two moments are decided). The statistical clause of the property is replaced by exact "
+            "structure + quadrature; sampling is outside this technique.", "DESIGN.md §5 C07"),
+    "C08": (E1, "bounded-exhaustive enumeration of every vector over a small amplitude alphabet x scales x shapes x ordered batches, every constraint chain up to length 3, float64 re-measurement",
+            "Per-item power (never more / equal 0.1 % / positive factor / idempotent / scale invariant / item independent), peak and PAPR limits, composite == sequential for all 155 chains, "
+            "factory composites satisfy all limits at once.", "Finite alphabets stand in for the continuous input space; PAPR clause restricted to non-sparse items on which the limit is attainable by clipping.", "DESIGN.md §5 C08"),
+    "C09": (E1, "bounded-exhaustive enumeration of links (code x decoder x modem) x all messages x harness-placed fault sequences (every flip pattern of weight <= t, bounded displacements)",
+            "ChannelCodeModel pipelines over perfect channels, every symbol displacement of 0.49 dmin in 8 directions (all symbols / each symbol), and every bit-flip pattern of weight <= t per block "
+            "realised on the constellation must return the message.", "Memoryless modems only (the pipeline has no reference-symbol stage); Berlekamp-Massey fault clauses on a structured message subset in the quick tier.", "DESIGN.md §5 C09"),
+    "C11": (E1, "bounded-exhaustive enumeration of (N,k) x frozen value x interleaving x ranking / every user mask x all messages; every LLR vector over a 4-letter alphabet for SC against a textbook reference",
+            "Information set, transform, generator matrix and frozen values against an independent Kronecker/bit-reversal reference and the pinned 5G ranking; SC and BP decoders on noise-free LLRs; "
+            "SC decisions on all 4^N (N<=8) / 2^16 (N=16) LLR vectors equal textbook successive cancellation.", "5G ranking pinned by SHA-256 + TS 38.212 prefix + binary domination.", "DESIGN.md §5 C11"),
+    "C12": ("kmc-E4-rngseam", "environment-answer enumeration: every input vector x every answer vector over {p-1e-6, p+1e-6} (+ extremes) served through the RNG seam",
+            "Support, input integrity, p=0 / p=1 extremes, Z one-sidedness, erasure semantics, and the private-draw law (each eligible symbol is controlled by exactly one draw with threshold p) on every "
+            "execution of the enumerated space.", "i.i.d. U(0,1) draws from torch; with that the private-draw law is the property's independence statement.", "DESIGN.md §5 C12"),
+    "C13": ("kmc-E4-rngseam+kmc-E1-space", "environment-answer enumeration: every answer position perturbed in turn (block constancy, private draws) + complete quantile grids for unit gain and K-factor",
+            "y = h.x + n with supplied CSI/noise on every fading type x coherence time x shape; block-constant gains; every (item, block) controlled by its own draws; unit mean-square gain and K-factor by "
+            "deterministic quadrature; noise calibrated relative to the faded signal.", "i.i.d. N(0,1) draws from torch; gain statistics via quadrature, not sampling.", "DESIGN.md §5 C13"),
+    "C15": ("kmc-E1-space+kmc-E2-bfs", "exhaustive enumeration of short bit sequences through every soft demodulator into every LLR consumer; BFS over call histories of stateful thresholders",
+            "Sign of every producer's noise-free LLRs, every consumer's decisions on producer output and on synthetic sign patterns at three magnitudes, decoders on modulated codewords, monotone "
+            "LLR->probability conversion, polarity after reset from every reached state.", "Data-adaptive thresholders only on rows with both bit values and constant magnitude; Otsu excluded (see DESIGN).", "DESIGN.md §5 C15"),
+    "C16": ("kmc-E2-bfs+kmc-E1-space", "explicit-state BFS over update/compute/reset/forward histories on real metric objects with a two-counter reference in lock-step; exhaustive compositions/permutations; all pairs",
+            "Every history up to depth 4/6, every composition of a 12-block stream, every permutation of <=4 chunks, every pair of binary vectors up to length 6/8.", "whole-object canonical state for deduplication", "DESIGN.md §5 C16"),
+    "C17": ("kmc-E3-sched+kmc-E2-bfs+kmc-E1-space", "schedule exploration: every feasible completion order of the real ThreadPoolExecutor fan-out forced with gates (each replayed twice), cross-checked with a TLA+/TLC executor model; BFS over add/remove/run histories",
+            "ParallelModel on all n! (and worker-limited) completion orders with order-sensitive aggregator; sequential/configurable models against a list model; fixed pipelines, branching (all 2^n), feedback rounds, "
+            "multiple access (every user->encoder assignment), Wyner-Ziv stage orders.", "Scheduling points are task completions observed by as_completed; TLC validates the feasibility model (thorough).", "DESIGN.md §5 C17"),
+    "C19": ("kmc-E1-space+kmc-E4-rngseam", "exhaustive enumeration of a configuration lattice x fixed input alphabet: autograd vs central finite differences under a frozen noise realisation; shape contract over image/batch sizes",
+            "Every analog stage / constraint configuration on 3-5 deterministic inputs and 3 losses; every encoder parameter of every bundled architecture receives a finite non-zero gradient through 4 constraints x 4 channels; "
+            "latent/output shapes and ranges for sizes {16,32,48,64} x batches {1,2,5}.", "Continuous input space: exhaustive over the lattice only. PAPR is piecewise smooth (finite differences inside one piece).", "DESIGN.md §5 C19"),
+    "C20": ("kmc-E1-space+kmc-E2-bfs", "differential exploration: every ordered selection of 1..3/4 pool members, every layout, every call sequence of length <=3 on one object, compared with the member processed alone",
+            "54 components (encoders, inverses, decoders, modulators, hard/soft demodulators, constraints) with pools that trigger their special paths.", "bit-exact for GF(2) components, 1e-6/1e-5 for float", "DESIGN.md §5 C20"),
     "C18": (E1,
             "bounded-exhaustive enumeration of operand pairs/triples/elements against an int-bitmask reference model",
             "Every pair of binary polynomials below degree 8 (quick) / 9 (thorough), every triple below degree 5/6, every pair of "
